@@ -283,3 +283,134 @@ Proof.
   - destruct (fetch_step_frame _ _ _ _ _ H0) as [_ [_ [_ [_ [_ [E|[hash [h E]]]]]]]]; rewrite E in Hl;
       [exfalso; apply (f_equal (@length _)) in Hl; cbn in Hl; lia|discriminate].
 Qed.
+
+(* ---- the thread programs of the tower are keyed ---- *)
+
+Definition stable {B} (f : tower -> res B) : Prop := exists kk, has_key kk f.
+
+(* every Carrier call of a ConcTower program (`reach_p ;;; act f`) puts requests of one fixed key on the wire *)
+Fixpoint cpall {A} (p : prog A) : Prop :=
+  match p with
+  | Ret _ => True
+  | Acq l k => (if N.eqb l L_reach then match k with Rel _ (Act B f _) => stable f | _ => False end else True) /\ cpall k
+  | Rel _ k => cpall k
+  | Act B f k => forall b, cpall (k b)
+  end.
+
+Lemma kd_carrier_retry {A B} kk (f : tower -> res B) (K : B -> rprog A) :
+  has_key kk f -> (forall b, kd None (K b)) -> forall n, kd (Some kk) (carrier_retry n f K).
+Proof.
+  intros Hk HK. induction n as [|n IH]; cbn; [exact I|].
+  exists kk. repeat split; auto.
+Qed.
+
+Lemma kd_embedk {A C} fuel (p : prog A) : forall (K : A -> rprog C),
+  cpall p -> (forall a, kd None (K a)) -> kd None (embedk fuel p K).
+Proof.
+  induction p as [a|l k IH|l k IH|B f k IH]; intros K Hc HK; cbn [embedk].
+  - apply HK.
+  - destruct Hc as [Hs Hc]. specialize (IH K Hc HK). destruct (N.eqb l L_reach); [|exact IH].
+    destruct k as [a|l' k'|l' k'|B f k']; try exact IH.
+    destruct k' as [a|l'' k''|l'' k''|B f k'']; try exact IH.
+    cbn [embedk kd] in IH. destruct Hs as [kk Hk]. cbn. exists kk. repeat split; auto.
+    apply kd_carrier_retry; auto.
+  - apply IH; auto.
+  - cbn. intros b. apply IH; auto.
+Qed.
+
+Lemma issued_same t : issued t t = None.
+Proof. unfold issued. rewrite Nat.ltb_irrefl. reflexivity. Qed.
+
+Lemma has_key_send sc tx : has_key (K_send, tx) (send_act sc tx).
+Proof.
+  intros t b t' e Hf Hi. unfold send_act, send_transaction in Hf.
+  destruct (aget (car_memo t) tx); inversion Hf; subst; [rewrite issued_same in Hi; discriminate|].
+  unfold issued in Hi. cbn in Hi. match type of Hi with (if ?b then _ else _) = _ => destruct b end; inversion Hi; subst; reflexivity.
+Qed.
+
+Lemma has_key_mempool sc p : has_key (K_getraw, p) (ask_mempool sc p).
+Proof.
+  intros t b t' e Hf Hi. unfold ask_mempool, in_mempool in Hf. inversion Hf; subst.
+  unfold issued in Hi. cbn in Hi. match type of Hi with (if ?b then _ else _) = _ => destruct b end; inversion Hi; subst; reflexivity.
+Qed.
+
+Lemma cpall_bind {A C} (p : prog A) (g : A -> prog C) :
+  cpall p -> (forall a, cpall (g a)) -> cpall (pbind p g).
+Proof.
+  induction p as [a|l k IH|l k IH|B f k IH]; intros Hp Hg; cbn [pbind cpall] in *; auto.
+  destruct Hp as [Hs Hc]. split; [|apply IH; auto].
+  destruct (N.eqb l L_reach); [|exact I].
+  destruct k as [a|l' k'|l' k'|B f k']; try contradiction.
+  destruct k' as [a|l'' k''|l'' k''|B f k'']; try contradiction. exact Hs.
+Qed.
+
+Ltac cloop_hook := fail.
+
+Ltac cwalk_step :=
+  match goal with
+  | |- True => exact I
+  | |- (if N.eqb ?a ?b then _ else _) => let v := eval vm_compute in (N.eqb a b) in change (N.eqb a b) with v; cbv iota
+  | |- _ /\ _ => split
+  | |- forall _, _ => intro
+  | |- stable (send_act ?sc ?tx) => exists (K_send, tx); apply has_key_send
+  | |- stable (ask_mempool ?sc ?p) => exists (K_getraw, p); apply has_key_mempool
+  | |- cpall (match ?x with _ => _ end) => destruct x
+  | |- cpall (if ?x then _ else _) => destruct x
+  | |- cpall (pbind _ _) => apply cpall_bind
+  | |- _ => cloop_hook
+  end.
+
+Ltac cwalk :=
+  repeat (cbn [cpall pbind acq rel act rd wr panic reach_p add_update_user_p charge_p delete_apps_p authenticate_p expired_p
+                 gk_connect_p gk_disconnect_p send_p handle_breach_p reorged_p stale_p r_connect_p r_disconnect_p
+                 store_appointment_p store_triggered_p cache_section_p has_tracker_p add_pre_p add_finish add_appointment_p
+                 get_appointment_p get_subscription_info_p w_cache_p w_rest_p w_connect_p w_disconnect_p op_body
+                 N.eqb Pos.eqb L_reach L_cache L_carrier L_txindex L_reorged L_users L_db];
+          try cwalk_step).
+
+Lemma cp_handle_breach sc uuid d p : cpall (handle_breach_p sc uuid d p).
+Proof. cwalk. Qed.
+
+Lemma cp_breach_uuid_loop sc d us : forall inv, cpall (breach_uuid_loop_p sc d us inv).
+Proof. induction us as [|uuid us IH]; intros inv; cbn [breach_uuid_loop_p]; [exact I|]. cwalk; apply IH. Qed.
+
+Lemma cp_breach_loop sc ds : forall inv, cpall (breach_loop_p sc ds inv).
+Proof.
+  induction ds as [|d ds IH]; intros inv; cbn [breach_loop_p]; [exact I|]. cwalk; [apply cp_breach_uuid_loop|apply IH].
+Qed.
+
+Lemma cp_reorged_loop sc h us : forall rej, cpall (reorged_loop_p sc h us rej).
+Proof. induction us as [|uuid us IH]; intros rej; cbn [reorged_loop_p]; [exact I|]. cwalk; apply IH. Qed.
+
+Lemma cp_stale_loop sc h us : forall rej, cpall (stale_loop_p sc h us rej).
+Proof. induction us as [|uuid us IH]; intros rej; cbn [stale_loop_p]; [exact I|]. cwalk; apply IH. Qed.
+
+Ltac cloop_hook ::=
+  first [ apply cp_reorged_loop | apply cp_stale_loop | apply cp_breach_loop | apply cp_breach_uuid_loop ].
+
+Lemma cp_op_body sc o : cpall (op_body sc o).
+Proof.
+  destruct o; unfold op_body, add_appointment_p, add_pre_p, add_finish, get_appointment_p, get_subscription_info_p, authenticate_p; cwalk.
+  unfold store_triggered_p; cwalk.
+Qed.
+
+Lemma cp_connect le sc hash txs h : cpall (connect_p le sc hash txs h).
+Proof.
+  unfold connect_p. change Consts.LISTENER_ORDER with [0%Z; 1%Z; 2%Z].
+  cbn [run_listeners_p listener_connected_p Z.eqb]. cwalk.
+Qed.
+
+(* every thread program of the tower is keyed *)
+Lemma kd_api sc fuel o : kd None (api_p sc fuel o).
+Proof. cbn. intros [|]; [|exact I]. apply kd_embedk; [apply cp_op_body|intros; exact I]. Qed.
+
+Lemma kd_poll_loop le sc fuel pfuel : forall first got k, kd None k -> kd None (poll_loop le sc fuel pfuel first got k).
+Proof.
+  induction pfuel as [|n IH]; intros first got k Hk; cbn [poll_loop kd]; [exact I|].
+  intros [|hash txs h| | |]; try exact Hk.
+  - unfold poll_ok_p. destruct (got && Bootstrap.POLL_PERSISTS_BETTER_TIP); cbn; exact Hk.
+  - apply kd_embedk; [apply cp_connect|]. intros _. apply IH. exact Hk.
+Qed.
+
+Lemma kd_monitor le sc fuel pfuel polls : kd None (monitor_p le sc fuel pfuel polls).
+Proof. induction polls as [|n IH]; cbn [monitor_p]; [exact I|]. apply kd_poll_loop. exact IH. Qed.
